@@ -852,7 +852,7 @@ package url
 //@   modifies bufv(output)
 //@   ensures s.url.parser.opts.encodingOverride == nil ==> bufv(output) == old(bufv(output)) + specFormEscFrom(st, 0)   [C11 form-serialize-escape]
 //@   loop 1 modifies bufv(output)
-//@   loop 1 invariant s.url.parser.opts.encodingOverride == nil ==> bufv(output) + specFormEscFrom(st, $i) == old(bufv(output)) + specFormEscFrom(st, 0)
+//@   loop 1 invariant s.url.parser.opts.encodingOverride == nil ==> bufv(output) + specFormEscFrom(st, $i) == old(bufv(output)) + specFormEscFrom(st, 0)   [C11]
 //@ func (*SearchParams).String
 //@   requires spOK(s) && s.url != nil && s.url.parser != nil && okOpts(s.url.parser)
 //@ func (*SearchParams).update
